@@ -23,6 +23,7 @@ def classify_impl(source, how='string', filt='ignore'):
     from . import impl
     from mosromgr.mostypes import MosFile
     tmp = None
+    impl.apply_cfg(impl.cfg_for((source if isinstance(source, str) else source.hex()) + how + filt))
     try:
         with warnings.catch_warnings():
             warnings.simplefilter(filt)
